@@ -409,7 +409,7 @@ func c14Build(name string, seed int64) *c14Model {
 		name = map[string]string{"p2": "p2small", "p1": "p1"}[name[:2]]
 	}
 	switch name {
-	case "p2small", "p2large", "p2huge", "p2four", "p2stray-first", "p2stray-mid", "p2-16k", "p2crc8":
+	case "p2small", "p2large", "p2huge", "p2four", "p2stray-first", "p2stray-mid", "p2stray-own", "p2stray-ownmid", "p2-16k", "p2crc8":
 		// small model: a slice-aligned file and a file with a short last slice, both ending in zero bytes, so that
 		// "last byte dropped" / "zero byte appended" are length-only damage that leaves every slice in place
 		cfg := scen.P2Config{Sizes: []int{12, 6}, Slice: 4, Blocks: 4, Class: "trailzero", Base: setBase}
@@ -456,10 +456,18 @@ func c14Build(name string, seed int64) *c14Model {
 			}
 			m.fs0 = s.FS0.Clone()
 			stray := "/d/s.old.par2"
-			if name == "p2stray-mid" {
+			if name == "p2stray-mid" || name == "p2stray-ownmid" {
 				stray = strings.TrimSuffix(m.vols[0], ".par2") + "~.par2" // sorts right after the first recovery file
 			}
 			m.fs0.Put(stray, other.FS0.Files[other.Index])
+			if strings.HasPrefix(name, "p2stray-own") {
+				// ... or holds packets of THIS set but no recovery block: a backup copy of the index file kept beside it
+				if name == "p2stray-own" {
+					m.fs0.Del(stray)
+					stray = "/d/s.backup.par2"
+				}
+				m.fs0.Put(stray, s.FS0.Files[s.Index])
+			}
 			m.variants = []int{vOrig, vMissing, vFirstChanged, vPrepended}
 		}
 	case "p1", "p1large":
@@ -726,7 +734,7 @@ func init() {
 	core.Register(&core.Prop{
 		ID:    "C14",
 		Level: "model_checking",
-		Rule: "explicit-state breadth-first search to closure of the directory-state graph. PAR2 small: 2 files (one slice-aligned, both ending in zero bytes) x 9 contents {original, missing, first byte changed, last byte dropped, one byte prepended, other file's content, empty, garbage byte appended, zero byte appended} x 3 recovery files {present, absent}; PAR2 large: 3 files x 9 contents x 4 recovery files; PAR2 with a file of exactly 16384 bytes (3 contents, slice 4096); PAR2 small with a stray file matching the recovery-file pattern (another set's index) listed first / between the recovery files (2 files x 4 contents x 3 recovery files); the small and the stray-file models with directory listings returned reversed / rotated; PAR1: 3 files x 5 contents x 2 volumes; PAR1 at the format's limits: 254 files + volumes .p01/.p02 (full 256-shard space; events on the first and last file, 3 contents) and 3 files with volumes .p01 and .p99 of 99 (the volumes in between never arrived); the small PAR2 / PAR1 models under 8 other index base names each (ending in characters of the extension, dotted, named like a recovery file, with a blank; 4 contents / 3 contents; alternately in memory and on disk); thorough adds 3 files x 9 contents x 5 recovery files (16 blocks), 4 files x 9 contents x 3 recovery files, and PAR1 4 files x 5 contents x 3 volumes. " +
+		Rule: "explicit-state breadth-first search to closure of the directory-state graph. PAR2 small: 2 files (one slice-aligned, both ending in zero bytes) x 9 contents {original, missing, first byte changed, last byte dropped, one byte prepended, other file's content, empty, garbage byte appended, zero byte appended} x 3 recovery files {present, absent}; PAR2 large: 3 files x 9 contents x 4 recovery files; PAR2 with a file of exactly 16384 bytes (3 contents, slice 4096); PAR2 small with a stray file matching the recovery-file pattern (another set's index) listed first / between the recovery files, or a copy of the set's own index under such a name (2 files x 4 contents x 3 recovery files); the small and the stray-file models with directory listings returned reversed / rotated; PAR1: 3 files x 5 contents x 2 volumes; PAR1 at the format's limits: 254 files + volumes .p01/.p02 (full 256-shard space; events on the first and last file, 3 contents) and 3 files with volumes .p01 and .p99 of 99 (the volumes in between never arrived); the small PAR2 / PAR1 models under 8 other index base names each (ending in characters of the extension, dotted, named like a recovery file, with a blank; 4 contents / 3 contents; alternately in memory and on disk); thorough adds 3 files x 9 contents x 5 recovery files (16 blocks), 4 files x 9 contents x 3 recovery files, and PAR1 4 files x 5 contents x 3 volumes. " +
 			"Plus the Decoder protocol search: EVERY sequence of <=6 (thorough 7) operations {LoadFileData, LoadParityData, both, counts, Repair, Repair+check, delete a, change a, delete b, restore data, delete / restore first recovery file} on ONE exported Decoder object (PAR1, PAR2; in memory via the constructor hook; <=4 (thorough 5) through the exported constructor on a real directory); calls are judged when the object's last loads match the directory (counts == truth; Repair succeeds iff lost <= capacity, restores exactly the damaged files, makes no file worse). " +
 			"Plus non-interference inside one process: every ordered pair, and every triple whose middle call fails or is interrupted (thorough: every triple), of 54 top-level calls (PAR1/PAR2 x Verify in 6 states, Repair in 4 states x 2 sets, Verify / Repair of a twin set with the same geometry and paths but other contents, Repair and Create interrupted by a torn write, Create in 7 variants incl. other block counts); the reference observation of each call comes from a fresh process, each on a private in-memory directory, run back to back with garbage collection off; the last call's full observation (error, result, every write, final directory) must equal that of the same call made alone. " +
 			"Events: damage(f,w), restore(f), delete/restore recovery file, Verify, Repair, Repair+double-check. The small PAR2 and the PAR1 model are searched twice: on the owned in-memory filesystem and through the exported API on a real directory (rewrites detected by modification time). Every Verify/Repair transition executes the real code on a fresh filesystem built from the state (gopar keeps no state between calls). Invariants on every transition: Verify leaves the state unchanged and gives equal results for equal states; successful Repair => all original, Verify clean, a further Repair in both modes writes nothing and lists nothing; failed Repair => every file holds its previous content or its original, and no protected content that was findable before the call (under whatever name) is unfindable after it; from every reachable state, restoring all recovery files and repairing reaches the original whenever capacity suffices. non-trivial = states in which Repair wrote files or failed",
@@ -743,6 +751,8 @@ func init() {
 			g.Emit(&c14Case{Model: "p2crc8"})
 			g.Emit(&c14Case{Model: "p2stray-first"})
 			g.Emit(&c14Case{Model: "p2stray-mid"})
+			g.Emit(&c14Case{Model: "p2stray-own"})
+			g.Emit(&c14Case{Model: "p2stray-ownmid-rev"})
 			// directory listings that come back in another order (reversed, rotated)
 			g.Emit(&c14Case{Model: "p2small-rev"})
 			g.Emit(&c14Case{Model: "p2small-rot"})
